@@ -44,7 +44,7 @@ Definition check (c : case) : N :=
   | Stream chunks sent complete truncated got err eof_err rest_len chunk_indep =>
       let '(ms, rest, e) := feed_chunks P_MAX_MESSAGE_SIZE [] chunks in
       let m1 := list_eqb bytes_eqb (map enc_cmsg ms) got && Bool.eqb e err && (N.of_nat (length rest) =? rest_len)
-                && Bool.eqb eof_err (negb e && negb (rest_len =? 0)) in
+                && Bool.eqb eof_err (negb e && eof_error rest) in
       (* a complete stream of sent messages yields exactly them; a truncated one a prefix of them
          and "need more" (an error only at end of stream), never another message *)
       let m2 := if complete then list_eqb bytes_eqb got sent && negb err && (rest_len =? 0) && negb eof_err
